@@ -2,7 +2,7 @@
 # For every seeded change: run the checks listed in seeded/<name>/checks.txt against it (scratch worktree, never /repo)
 # and record which violation keys each check reports in seeded/<name>/detect.json.
 cd /verif
-for d in seeded/*/; do
+for d in seeded/[!_]*/; do
   n=$(basename $d)
   [ -f $d/checks.txt ] || continue
   [ -n "${ONLY:-}" ] && [ "$n" != "$ONLY" ] && continue
